@@ -96,6 +96,33 @@ Theorem C04_reader_accepts_valid_ex :
 Proof. exact @reader_accepts_valid_ex. Qed.
 Print Assumptions C04_reader_accepts_valid_ex.
 
+Theorem C04_reader_recsize_writer_rule :
+  forall (hint mm : Z) (f : list Base.byte) (d : HeaderSpec.decoded),
+         HeaderSpec.decode f = Some d ->
+         Reader.c04_valid mm d = true ->
+         exists o : Reader.opened,
+           Reader.out_res (Reader.open_model hint mm f) = Reader.Ok o /\
+           Reader.o_hdr o = HeaderSpec.dc_hdr d /\
+           Header.l_recsize (Reader.o_lay o) = Proofs_Layout.recsize_of (HeaderSpec.dc_hdr d) /\
+           (forall v : Header.var,
+            Proofs_Layout.rec_vars (HeaderSpec.dc_hdr d) = v :: nil ->
+            Header.l_recsize (Reader.o_lay o) =
+            (Header.var_nelems_per_rec (Header.var_shape (Header.h_dims (HeaderSpec.dc_hdr d)) v) *
+             Header.xlen_type (Header.v_type v))%Z) /\
+           (Proofs_Layout.rec_vars (HeaderSpec.dc_hdr d) = nil ->
+            Header.l_recsize (Reader.o_lay o) = 0%Z).
+Proof. exact @reader_recsize_writer_rule. Qed.
+Print Assumptions C04_reader_recsize_writer_rule.
+
+Theorem C04_reader_recsize_writer_rule_ex :
+  exists d : HeaderSpec.decoded,
+           HeaderSpec.decode ex_valid_file = Some d /\
+           Reader.c04_valid 1048576 d = true /\
+           length (Proofs_Layout.rec_vars (HeaderSpec.dc_hdr d)) = 2 /\
+           Proofs_Layout.recsize_of (HeaderSpec.dc_hdr d) = 12%Z.
+Proof. exact @reader_recsize_writer_rule_ex. Qed.
+Print Assumptions C04_reader_recsize_writer_rule_ex.
+
 Theorem C04_encoded_read_back :
   forall (hint mm : Z) (h : Header.hdr) (rest : list Base.byte),
          Proofs_Header.wf_hdr h = true ->
